@@ -213,7 +213,8 @@ fn write_maybe_rpx_dimension(
 ) {
     let unit_str: &str = &unit;
     if unit_str == "rpx" {
-        let new_value = value * 100. / ss.options.rpx_ratio;
+        // (in double precision: `value * 100.` must not overflow before the division)
+        let new_value = (value as f64 * 100. / ss.options.rpx_ratio as f64) as f32;
         let new_int_value = if (new_value.round() - new_value).abs() <= f32::EPSILON {
             Some(new_value.round() as i32)
         } else {
